@@ -103,15 +103,17 @@ class ProjectSettings:
         """
         Return simulation time vector
 
-        This method uses `linspace` rather than `arange` to avoid accumulating numerical errors that prevent
-        integer years aligning exactly.
+        The times are ``sim_start + k*sim_dt`` for integer ``k`` rather than a repeated addition of ``sim_dt``, to avoid
+        accumulating numerical errors that prevent integer years aligning exactly.
 
         :return: Array of simulation times
 
         """
 
+        # Each time is computed directly from its index (so errors do not accumulate) and does not depend on the end year,
+        # so extending a simulation reproduces the earlier times - and hence the earlier outputs - exactly
         n_steps = self._n_steps(self.sim_end)
-        return np.linspace(self.sim_start, self.sim_start + n_steps * self.sim_dt, n_steps + 1)
+        return self.sim_start + np.arange(n_steps + 1) * self.sim_dt
 
     def update_time_vector(self, start: float = None, end: float = None, dt: float = None) -> None:
         """
